@@ -10,7 +10,7 @@ from props import answers, ccert
 THEOREMS = ["InfOCF.C05_main", "InfOCF.C05_base_iff", "InfOCF.C05_query_iff", "InfOCF.C05_accepts_iff_compiled",
             "InfOCF.C05_unfalsifiable", "InfOCF.C05_verifying_cost", "InfOCF.C05_falsifying_cost", "InfOCF.leastCost_famMin",
             "InfOCF.min_famMin", "InfOCF.minimaEnc_iff", "InfOCF.minimaEnc_nil", "InfOCF.C08_P_le_C", "InfOCF.C05_cert_sound",
-            "InfOCF.farkas_sound"]
+            "InfOCF.farkas_sound", "InfOCF.C05_cert_no_counter_model"]
 RULE = ("random strongly consistent bases (1-4 atoms, 1-5 conditionals; constants, duplicates, unfalsifiable conditionals, ties) x 6 queries "
         "through InferenceManager('c-inference'). For every answer a counter-model (a c-representation that does not accept the query) is "
         "searched twice independently: exhaustively in the cube [0..3]^k by the driver, and by z3 on the definitional constraint system "
